@@ -59,7 +59,11 @@ def run(cmd, timeout=None, cwd=None, env=None, input=None, check=False):
 # 1. building the code under test
 
 def build_dir(flavour="rel"):
-    return os.path.join(BUILD_ROOT, flavour)
+    # one build tree per location of this framework: a copy of /verif elsewhere (e.g. a snapshot)
+    # must not reuse a CMake cache configured for another source directory
+    if VERIF == "/verif":
+        return os.path.join(BUILD_ROOT, flavour)
+    return os.path.join(BUILD_ROOT, flavour + "-" + hashlib.sha1(VERIF.encode()).hexdigest()[:8])
 
 
 FLAVOURS = {
